@@ -1,5 +1,5 @@
 (** Properties/C11.v — "An object's value does not depend on how it is stored". *)
-From PdfV Require Import Base.Prelude Gen.Generated Lex.Lexer Lex.LexProofs Syn.Prim Syn.Parser Syn.Spells Syn.ParserProofs Syn.RenderProofs
+From PdfV Require Import Base.Prelude Gen.Generated Lex.Lexer Lex.LexProofs Syn.Prim Syn.Parser Syn.Spells Syn.ParserProofs Syn.RenderProofs Syn.StreamProofs
   ObjStm.Model ObjStm.Proofs.
 
 (** compressed storage: for every object stream whose header lists the members' offsets, member i — written in any
@@ -41,6 +41,33 @@ Theorem C11_header : forall pairs offs,
   header_offsets (length pairs) s = Ok offs.
 Proof. exact header_offsets_ok. Qed.
 Print Assumptions C11_header.
+
+(** second sentence: a stream's data window is the same whether /Length is a direct integer or a reference that the resolver —
+    asked for an integer — resolves to that integer (the referenced integer object may be stored either way: C11_member and
+    C11_direct_twin give the same value for both).  In both files the window is exactly the bytes [data] behind the end-of-line. *)
+Theorem C11_stream_length : forall d1 body1 d2 body2 a b id gen,
+  spells_dict d1 body1 -> NoDup (keys d1) -> spells_dict d2 body2 -> NoDup (keys d2) ->
+  parse_u64 a = Ok id -> parse_u64 b = Ok gen ->
+  forall R allow i g data eol rest,
+    dict_get key_Length d1 = Some (PInt (Z.of_N (lenN data))) ->
+    dict_get key_Length d2 = Some (PRef i g) -> R i g F_INTEGER = Ok (PInt (Z.of_N (lenN data))) ->
+    1 + ddepth d1 <= MAX_DEPTH -> 1 + ddepth d2 <= MAX_DEPTH -> stream_eol eol ->
+    forall s s2 s3 s4 s5 t t2 t3 t4 t5,
+    Lexes s (IWord a :: IWord b :: IWord kw_obj :: IWord kw_dict_open :: body1 ++ [IWord kw_dict_close]) s2 ->
+    (forall s0, Lexes s0 (IWord kw_dict_open :: body1 ++ [IWord kw_dict_close]) s2 -> (length body1 + 2 <= fuel_for s0)%nat) ->
+    next s2 = Ok (kw_stream, s3) -> lrest s3 = eol ++ data ++ rest ->
+    next_expect (mkLx (lpos s3 + lenN eol + lenN data) rest) kw_endstream = Ok s4 -> next_expect s4 kw_endobj = Ok s5 ->
+    Lexes t (IWord a :: IWord b :: IWord kw_obj :: IWord kw_dict_open :: body2 ++ [IWord kw_dict_close]) t2 ->
+    (forall s0, Lexes s0 (IWord kw_dict_open :: body2 ++ [IWord kw_dict_close]) t2 -> (length body2 + 2 <= fuel_for s0)%nat) ->
+    next t2 = Ok (kw_stream, t3) -> lrest t3 = eol ++ data ++ rest ->
+    next_expect (mkLx (lpos t3 + lenN eol + lenN data) rest) kw_endstream = Ok t4 -> next_expect t4 kw_endobj = Ok t5 ->
+    exists st1 st2,
+      parse_indirect_object R allow F_ANY s = Ok (id, gen, PStream d1 id gen st1 (lenN data), s5) /\
+      parse_indirect_object R allow F_ANY t = Ok (id, gen, PStream d2 id gen st2 (lenN data), t5) /\
+      firstn (length data) (skipn (N.to_nat (st1 - lpos s3)) (lrest s3)) = data /\
+      firstn (length data) (skipn (N.to_nat (st2 - lpos t3)) (lrest t3)) = data.
+Proof. exact stream_data_independent_of_length_storage. Qed.
+Print Assumptions C11_stream_length.
 
 Theorem C11_slice_no_panic : forall first offsets datalen index site,
   object_slice first offsets datalen index <> Panic site.
